@@ -273,4 +273,23 @@ def run(tier):
     # ---- R4 front-end clause: identifier-like token kinds are names everywhere Identifier is
     import identkinds
     identkinds.rule(fx, ck)
+    # ---------------- R5 a modifier word is consumed only behind a look-ahead
+    import modlook
+    ck.rule("R5.modifier-lookahead", "static / abstract / public / private / protected / readonly / accessor / async / declare / get / set are consumed in front of a member, "
+            "type-member or parameter name only behind a one-token look-ahead (followed by `(` `=` `;` `:` the word is the name itself)", floor=10)
+    res, pk, wr = modlook.sites(fx, lambda g: g.file.endswith("src/parser.rs"))
+    ck.anchor(len(pk) >= 1, "look-ahead helpers of the parser (checkpoint / next_token / restore without advancing): %s" % sorted(x.split("::")[-1] for x in pk))
+    seen5 = set()
+    for f, form, w, sp, ok in res:
+        ck.instance("R5.modifier-lookahead", "%s: %s of `%s`" % (f.path, form, w), F.short_span(sp), ok=ok)
+        key = "R5.modifier-lookahead/%s/%s" % (f.path, w)
+        if not ok and key not in seen5:
+            seen5.add(key)
+            ck.finding("R5.modifier-lookahead", key, F.short_span(sp),
+                       "`%s` consumes the word `%s` whenever it is the current token: a member or parameter that is *named* `%s` (`class C { %s() {} }`, `{ %s: T }`) is a SyntaxError; "
+                       "the object-literal parser looks one token ahead first" % (f.path, w, w.split("/")[0], w.split("/")[0], w.split("/")[0]))
+    resc, pkc, wrc = modlook.sites(F.load_fixture(), lambda g: g.path.startswith("modlook::"), tk="modlook::TokenKind")
+    gotc = sorted((f.path.split("::")[-1], ok) for f, form, w, sp, ok in resc)
+    if gotc != [("bad_access", False), ("bad_member", False), ("good_access", True), ("good_member", True)]:
+        ck.closed_fail.append("R5 control failed: fixture gives %s" % gotc)
     return ck.finish()
